@@ -30,7 +30,7 @@ STEMS = ["a1", "b2", "c3", "d4", "abc123", "0ff1ce", "r_x", "x.y", "notes"]
 SPECIAL_STEMS = ["__init__", ".#a1", ".#lock", "__init__"]
 INIT_PREFIXED = ["__init__x", "__init___v2"]
 PLAIN_FILES = ["README", "xpy", "env.cfg", "script.py.mako", "a1.txt", "b2.py.bak", "c3.orig", "d4.pyx", "data.pyc.old"]
-SUBDIR_NAMES = ["sub", "deep", "pkg", "zz"]
+SUBDIR_NAMES = ["sub", "sub2", "deep", "pkg", "zz"]
 
 
 # --------------------------------------------------------------------------------------
@@ -71,7 +71,9 @@ def gen_plan(rng, special=0.25, sizes=(1, 3)):
         ids.append(i)
         return {"rev": i}
 
-    tops = ["v%s" % c for c in "abc"[: rng.randint(*sizes)]]
+    # sibling directories whose paths share a textual prefix (va / va_ext / va2) or not (va / vb / vc)
+    family = ["va", "va_ext", "va2"] if rng.random() < 0.4 else ["va", "vb", "vc"]
+    tops = family[: rng.randint(*sizes)]
     if rng.random() < 0.35:
         tops.append("scripts/versions")
     if rng.random() < 0.04:
@@ -174,22 +176,27 @@ def gen_plan(rng, special=0.25, sizes=(1, 3)):
         tgt = rng.choice(real_dirs)
         links.append({"path": "alias0", "target": tgt, "dir": True})
         aliases.append("alias0")
-    if rng.random() < 0.15:
+    symsubs = []
+    if rng.random() < 0.2:
         d = rng.choice(real_dirs)
         tgt = rng.choice(real_dirs)
         links.append({"path": "%s/lsub" % d, "target": tgt, "dir": True})
+        symsubs.append("%s/lsub" % d)
     # version locations
-    cands = real_dirs + aliases
+    cands = real_dirs + aliases + symsubs
     locations = None
     if not ("scripts/versions" in real_dirs and rng.random() < 0.4):
         n = rng.choice([1, 1, 2, 2, 3])
         locations = []
         while len(locations) < n:
-            if locations and rng.random() < 0.4:
-                # something overlapping with an earlier choice: an ancestor, a descendant or itself
+            if locations and rng.random() < 0.5:
+                # something related to an earlier choice: an ancestor, a descendant, itself, a symlinked
+                # sub-directory of it, or a *sibling* whose path merely starts with the same text (va / va_ext)
                 prev = rng.choice(locations)
-                rel = [c for c in real_dirs if c.startswith(prev + "/") or prev.startswith(c + "/") or c == prev]
-                locations.append(rng.choice(rel or cands))
+                rel = [c for c in cands if c.startswith(prev + "/") or prev.startswith(c + "/") or c == prev]
+                sib = [c for c in cands if c != prev and (c.startswith(prev) or prev.startswith(c))
+                       and not (c.startswith(prev + "/") or prev.startswith(c + "/"))]
+                locations.append(rng.choice(sib if sib and rng.random() < 0.5 else (rel or cands)))
             else:
                 locations.append(rng.choice(cands))
         if rng.random() < 0.05:
